@@ -322,13 +322,14 @@ def gen_test(rng, audit_type):
     return {"test": test, "estim": estim, "bet": bet, "test_kwargs": kw}
 
 
-def gen_contest(rng, cid, audit_type, kinds=None):
+def gen_contest(rng, cid, audit_type, kinds=None, shared_names=False):
     kinds = kinds or [(PLURALITY, 5), (APPROVAL, 1), (SUPERMAJORITY, 2), (IRV, 2)]
     cf = rng.wpick(kinds)
     ncand = rng.randint(2, 5)
     if cf == IRV:
         ncand = rng.randint(3, 5)
-    cands = [f"{cid}c{j}" for j in range(ncand)]
+    # candidate names are only unique within a contest ('yes'/'no' measures): assertion labels may collide across contests
+    cands = [f"c{j}" for j in range(ncand)] if shared_names else [f"{cid}c{j}" for j in range(ncand)]
     k = 1
     if cf in (PLURALITY, APPROVAL) and ncand > 2 and rng.random() < 0.3:
         k = rng.randint(1, ncand - 1)
